@@ -176,14 +176,38 @@ func neverNilError(c *Ctx, v ssa.Value) bool {
 }
 
 func init() {
-	register("E-DISC", ruleErrDisc)
+	register("E-DISC/parse", func(c *Ctx) *RuleResult { return ruleErrDisc(c, "parse", 25) })
+	register("E-DISC/eval", func(c *Ctx) *RuleResult { return ruleErrDisc(c, "eval", 30) })
+	register("E-DISC/cli", func(c *Ctx) *RuleResult { return ruleErrDisc(c, "cli", 5) })
 	register("E-LATCH", ruleLatch)
 }
 
-func ruleErrDisc(c *Ctx) *RuleResult {
-	r := &RuleResult{Doc: "error discipline: every error produced is tested or forwarded on every path (E1/E1p) and, where it is non-nil, every reachable return reports failure (E2)", Floor: 40}
+// scopeOf: which part of the program a function belongs to.
+//   parse: lexer.go, parser.go and the API functions up to the parse result
+//   eval:  interpreter.go, functions.go, util.go and the API's Search functions
+//   cli:   cmd/jpgo
+func (c *Ctx) scopeOf(fn *ssa.Function) map[string]bool {
+	if fn.Pkg == c.SCLI {
+		return map[string]bool{"cli": true}
+	}
+	switch c.file(fn.Pos()) {
+	case "lexer.go", "parser.go":
+		return map[string]bool{"parse": true}
+	case "api.go":
+		return map[string]bool{"parse": true, "eval": true}
+	case "interpreter.go", "functions.go", "util.go":
+		return map[string]bool{"eval": true}
+	}
+	return map[string]bool{"parse": true, "eval": true}
+}
+
+func ruleErrDisc(c *Ctx, scope string, floor int) *RuleResult {
+	r := &RuleResult{Doc: "error discipline (" + scope + "): every error produced is tested or forwarded on every path (E1/E1p) and, where it is non-nil, every reachable return reports failure (E2)", Floor: floor}
 	for _, pkg := range []*ssa.Package{c.SLib, c.SCLI} {
 		for _, fn := range allFuncs(pkg) {
+			if !c.scopeOf(fn)[scope] {
+				continue
+			}
 			ord := map[string]int{}
 			for _, s := range errSites(c, fn) {
 				r.Instances++
@@ -210,6 +234,7 @@ func ruleErrDisc(c *Ctx) *RuleResult {
 }
 
 func shortCallee(n string) string {
+	n = strings.ReplaceAll(n, libPath+"/cmd/jpgo.", "")
 	n = strings.ReplaceAll(n, libPath+".", "")
 	n = strings.ReplaceAll(n, libPath, "jmespath")
 	return n
@@ -247,7 +272,7 @@ func checkErrSite(c *Ctx, r *RuleResult, fn *ssa.Function, s errSite, key, pos s
 			continue
 		}
 		for _, rf := range *v.Referrers() {
-			if ret, ok := rf.(*ssa.Return); ok && errSlot >= 0 && ret.Results[errSlot] == v {
+			if ret, ok := rf.(*ssa.Return); ok && errSlot >= 0 && retResults(ret)[errSlot] == v {
 				forwardedAt[ret.Block()] = true
 			}
 		}
@@ -352,7 +377,7 @@ func checkNonNilEdge(c *Ctx, fn *ssa.Function, s errSite, flow map[ssa.Value]boo
 		seen[b] = true
 		for _, in := range b.Instrs {
 			// E2-alt: a retry of the same callee on the same receiver supersedes e
-			if call, ok := in.(*ssa.Call); ok && sameCallee != nil && staticCallee(call) == sameCallee && call != s.call {
+			if call, ok := in.(*ssa.Call); ok && sameCallee == c.A.Match && staticCallee(call) == sameCallee && call != s.call {
 				if recv == nil || (len(call.Call.Args) > 0 && call.Call.Args[0] == recv) {
 					return
 				}
@@ -368,7 +393,7 @@ func checkNonNilEdge(c *Ctx, fn *ssa.Function, s errSite, flow map[ssa.Value]boo
 		if ret := blockReturn(b); ret != nil {
 			switch {
 			case errSlot >= 0:
-				v := ret.Results[errSlot]
+				v := retResults(ret)[errSlot]
 				if flow[v] || neverNilError(c, v) {
 					return
 				}
@@ -387,7 +412,7 @@ func checkNonNilEdge(c *Ctx, fn *ssa.Function, s errSite, flow map[ssa.Value]boo
 					problem = "the comparison function returns at " + c.pos(ret.Pos()) + " without recording the failure"
 				}
 			case isIntFn:
-				v := ret.Results[0]
+				v := retResults(ret)[0]
 				if k, ok := constInt(v); ok {
 					if k == 0 {
 						problem = "the return at " + c.pos(ret.Pos()) + " yields status 0"
@@ -438,7 +463,7 @@ func returnsOnlyNonZero(f *ssa.Function) bool {
 			if len(ret.Results) != 1 {
 				return false
 			}
-			k, ok := constInt(ret.Results[0])
+			k, ok := constInt(retResults(ret)[0])
 			if !ok || k == 0 {
 				return false
 			}
@@ -583,7 +608,7 @@ func ruleLatch(c *Ctx) *RuleResult {
 					errSlot := errIndex(fn.Signature)
 					for bb := range reachableFrom(T, nil) {
 						if ret := blockReturn(bb); ret != nil {
-							if errSlot < 0 || !neverNilError(c, ret.Results[errSlot]) {
+							if errSlot < 0 || !neverNilError(c, retResults(ret)[errSlot]) {
 								problem = "the latched edge reaches the return at " + c.pos(ret.Pos()) + " which does not carry a fresh error"
 							}
 						}
